@@ -1065,6 +1065,12 @@ func (nbs *NomsBlockStore) addChunk(ctx context.Context, ch chunks.Chunk, getAdd
 			nbs.memtable = newMemTable(nbs.memtableSz)
 			addChunkRes = nbs.memtable.addChunk(ch.Hash(), ch.Data())
 		}
+		if addChunkRes == chunkAdded {
+			// Register the chunk's child references as soon as it is in the memtable. If the
+			// keeper makes us wait for a GC below and that GC ends without swapping tables,
+			// the retry finds the chunk already present and must not lose its references.
+			nbs.memtable.addGetChildRefs(getAddrs(ch))
+		}
 		if addChunkRes == chunkAdded || addChunkRes == chunkExists {
 			if nbs.keeperFunc != nil && nbs.keeperFunc(ch.Hash()) {
 				retry = true
@@ -1073,9 +1079,6 @@ func (nbs *NomsBlockStore) addChunk(ctx context.Context, ch chunks.Chunk, getAdd
 				}
 				continue
 			}
-		}
-		if addChunkRes == chunkAdded {
-			nbs.memtable.addGetChildRefs(getAddrs(ch))
 		}
 	}
 
